@@ -58,7 +58,7 @@ def make_matrix(rng, kind, nmax, weighted=True, nmin=5):
                     E.add((i, j))
         E = sorted(E)
         W = [(i, j, rng.randint(1, 4) if weighted else 1) for (i, j) in E]
-        return dict(shape=[r, c], coo=[list(e) for e in W], dtype='int', fmt='csr'), r, c, 'bip'
+        return dict(shape=[r, c], coo=[list(e) for e in W], dtype=_storage(rng), fmt='csr'), r, c, 'bip'
     if kind == 'symconn':
         n, E, fam = connected_sym(rng, nmax, nmin)
         directed = False
@@ -80,7 +80,13 @@ def make_matrix(rng, kind, nmax, weighted=True, nmin=5):
         W, _ = gen.random_weights(rng, E, directed=directed, kind=rng.choice(['unit', 'small_int']))
     else:
         W = [(i, j, 1) for (i, j) in E]
-    return dict(shape=[n, n], coo=[list(e) for e in W], dtype='int', fmt='csr'), n, n, fam + ('_dir' if directed else '_sym')
+    return dict(shape=[n, n], coo=[list(e) for e in W], dtype=_storage(rng), fmt='csr'), n, n, fam + ('_dir' if directed else '_sym')
+
+
+def _storage(rng):
+    """storage type of the generated matrix: the weights are integers 1..5, exact in each of these (narrow integer types are what
+    loaders and `astype` calls leave behind; sums of two weights still fit, so a type-preserving A + A.T is not yet at risk here)"""
+    return rng.choice(['int'] * 8 + ['int32', 'uint8', 'int8', 'float'])
 
 
 def seed_form(rng, d, n, default):
